@@ -303,6 +303,7 @@ fn alphabet(s: Size, counter: &mut u64) -> Vec<GOp> {
     ops.push(GOp::Set(0, 0, fresh(counter, 1)[0], true));
     ops.push(GOp::Set(s.r, 0, fresh(counter, 1)[0], false));
     ops.push(GOp::Set(0, s.c, fresh(counter, 1)[0], true));
+    ops.push(GOp::Set(0, s.c, fresh(counter, 1)[0], false));
     ops.push(GOp::MapMut(1000));
     ops.push(GOp::MapMutWithIndex(100));
     ops
